@@ -119,33 +119,45 @@ def interval_of_arg(arg, fn, alt, tests, m, cls, depth=0):
 
 
 def host_fade_kernel(hm_rgb):
-    """(host_value(cur, goal, index, steps), text of the step loop's iterator) for RGBLed.fade: the body of
-    `for current, goal in zip(start, target)` is evaluated by the checker's interpreter and appends one value"""
+    """(host_value(cur, goal, index, steps), number-of-steps function) for RGBLed.fade: the whole method is evaluated by the
+    checker's interpreter on a host object whose three channels start at `cur` and fade to `goal`; the colour is read at every
+    wait and at the end, so the result does not depend on how the interpolation is spelled (loop, comprehension, helper)"""
     from .. import dl
     from ..core import AnalysisError
+    from . import c04
     hf = hm_rgb.func("RGBLed.fade")
-    chan = [n for n in walk_local(hf) if isinstance(n, ast.For) and norm(n.iter) == "zip(start, target)" and norm(n.target) in ("current, goal", "(current, goal)")]
-    if len(chan) != 1:
-        raise AnalysisError("RGBLed.fade: per-channel interpolation loop `for current, goal in zip(start, target)` not found")
-    step_loop = [n for n in walk_local(hf) if isinstance(n, ast.For) and any(c is chan[0] for c in ast.walk(n)) and n is not chan[0]]
-    idx_name = norm(step_loop[0].target) if step_loop else "index"
-    hit = dl.Interp(hm_rgb)
+    cache = {}
+
+    def sequence(cur, goal, steps_):
+        key = (cur, goal, steps_)
+        if key not in cache:
+            o = c04.host_object(hm_rgb, "RGBLed", 9, 10, 11)
+            ini = dl.Interp(hm_rgb).call(hm_rgb.func("RGBLed.set_color"), [o, cur, cur, cur])
+            if ini.kind != "return":
+                raise AnalysisError(f"host RGBLed.set_color({cur}) raises {ini.value}")
+            seen = []
+            try:
+                out = dl.Interp(hm_rgb, opaque={"_sleep": lambda ms, _s=seen, _o=o: _s.append(dl.Interp(hm_rgb).call(hm_rgb.func("RGBLed.get_color"), [_o]).value)}).call(hf, [o, goal, goal, goal], {"duration_ms": steps_ * 4, "steps": steps_})
+            except dl.Unsupported as e:
+                raise AnalysisError(f"RGBLed.fade left the evaluable subset: {e}")
+            if out.kind != "return":
+                raise AnalysisError(f"host RGBLed.fade({cur}->{goal}, steps={steps_}) raises {out.value}")
+            seen.append(dl.Interp(hm_rgb).call(hm_rgb.func("RGBLed.get_color"), [o]).value)
+            cache[key] = [c_[0] if isinstance(c_, (tuple, list)) else c_ for c_ in seen]
+        return cache[key]
 
     def host_value(cur, goal, index, steps_):
-        env = dl.Env(None)
-        for k_, v_ in (("current", cur), ("goal", goal), (idx_name, index), ("steps", steps_), ("interpolated", [])):
-            dict.__setitem__(env, k_, v_)
-        hit.steps = 0
-        try:
-            hit._block(chan[0].body, env)
-        except dl.Unsupported as e:
-            raise AnalysisError(f"RGBLed.fade interpolation left the evaluable subset: {e}")
-        out_ = env["interpolated"]
-        if len(out_) != 1:
-            raise AnalysisError("RGBLed.fade interpolation does not append exactly one value per channel")
-        return out_[0]
+        seq = sequence(cur, goal, steps_)
+        if cur == goal:
+            return goal
+        if len(seq) != steps_:
+            raise AnalysisError(f"host RGBLed.fade({cur}->{goal}) takes {len(seq)} steps for steps={steps_}")
+        return seq[index - 1]
 
-    return host_value, (norm(step_loop[0].iter) if step_loop else None)
+    def n_steps(cur, goal, steps_):
+        return len(sequence(cur, goal, steps_))
+
+    return host_value, n_steps
 
 
 def servo_maps(r, m):
@@ -175,7 +187,31 @@ def servo_maps(r, m):
             ok = len(rets) == 1 and rat_equal(rets[0].value, ast.parse(o, mode="eval").body, subst, {})
         except ValueError:
             ok = False
-        r.check(ok, f"Servo.{f.name}/linear-map", (m, f), f"{f.name} is not the linear map through the configured end points")
+        why = ""
+        if not ok:
+            # another spelling (a shared helper, a different association): the method is evaluated (checker's interpreter) on
+            # three calibrations x seven arguments and compared with the line through the configured end points
+            from .. import dl
+            from . import c04
+            from fractions import Fraction
+            ok = True
+            for cal in ({}, {"min_angle": 10, "max_angle": 170, "min_pulse_us": 500, "max_pulse_us": 2500}, {"min_angle": -90, "max_angle": 90, "min_pulse_us": 1000, "max_pulse_us": 2000}):
+                o_ = c04.host_object(m, "Servo", 9, **cal)
+                lo_a, hi_a, lo_p, hi_p = (Fraction(getattr(o_, a_)) for a_ in ("_min_angle", "_max_angle", "_min_pulse", "_max_pulse"))
+                xs = [lo_a, hi_a, (lo_a + hi_a) / 2, lo_a + (hi_a - lo_a) / 3, lo_a + 1, hi_a - Fraction(1, 4), lo_a + Fraction(7, 10)] if src_ == "angle" else [lo_p, hi_p, (lo_p + hi_p) / 2, lo_p + (hi_p - lo_p) / 3, lo_p + 1, hi_p - Fraction(1, 4), lo_p + Fraction(7, 10)]
+                for x in xs:
+                    try:
+                        out_ = dl.Interp(m).call(f, [o_, float(x)])
+                    except dl.Unsupported as e:
+                        raise AnalysisError(f"Servo.{f.name} left the evaluable subset: {e}")
+                    want = lo_p + (Fraction(float(x)) - lo_a) / (hi_a - lo_a) * (hi_p - lo_p) if src_ == "angle" else lo_a + (Fraction(float(x)) - lo_p) / (hi_p - lo_p) * (hi_a - lo_a)
+                    if out_.kind != "return" or not isinstance(out_.value, (int, float)) or abs(Fraction(out_.value) - want) > Fraction(1, 10 ** 6):
+                        ok = False
+                        why = f": {f.name}({float(x)}) with calibration {cal or 'default'} -> {out_!r}, the line gives {float(want)}"
+                        break
+                if not ok:
+                    break
+        r.check(ok, f"Servo.{f.name}/linear-map", (m, f), f"{f.name} is not the linear map through the configured end points{why}")
 
 
 def run(cx):
@@ -189,178 +225,9 @@ def run(cx):
     for m in mods.values():
         cx.consulted(m)
 
-    # ---- C19-WRITERS -------------------------------------------------------------------------
-    r = cx.rule("C19-WRITERS", "each state attribute is assigned only in its designated writer methods", floor=12)
-    meths_by = {}
-    for cname, m in mods.items():
-        c = m.cls(cname)
-        meths = methods_of(c)
-        meths_by[cname] = meths
-        for name, f in meths.items():
-            for attr, st in self_stores(f):
-                allowed = WRITERS[cname].get(attr)
-                if allowed is None:
-                    if name != "__init__" and not attr.startswith("__"):
-                        r.ok(f"{cname}.{name}: non-state attribute {attr}")
-                    continue
-                r.check(name in allowed, f"{cname}.{attr}/written-in[{name}]", (m, st), f"`{stmt_key(st)}` in {cname}.{name}: {attr} may only be written by {sorted(allowed)}", sample=f"{cname}.{attr} <- {name}")
-            for c_ in calls_in(f):
-                if call_name(c_) in ("setattr", "object.__setattr__") or "__dict__" in norm(c_):
-                    r.fail(f"{cname}.{name}/setattr", (m, c_), "state written through setattr/__dict__")
-
-    # ---- C19-RANGE ---------------------------------------------------------------------------
-    r = cx.rule("C19-RANGE", "writer bodies establish the invariants: stores happen only under the range guard (0..255, configured servo bounds, clamp to -1..1), derived state is recomputed from the stored value", floor=20)
-    # Led.set_brightness
-    m = mods["Led"]
-    lc = m.cls("Led")
-    sb = m.func("Led.set_brightness")
-    tr = CondTrace(lambda s: isinstance(s, ast.Assign) and norm(s.targets[0]) in ("self.brightness", "self.state"),
-                   marks=lambda s: {"B"} if isinstance(s, ast.Assign) and norm(s.targets[0]) == "self.brightness" else set())
-    tr.run_function(sb, frozenset({frozenset()}))
-    for st, state in tr.hits:
-        tgt = norm(st.targets[0])
-        for alt in state:
-            if tgt == "self.brightness":
-                iv = env_from_path(alt, tr.tests, ["value"], m, lc)["value"]
-                r.check(iv.within(0, 255) and iv.lo == 0 and iv.hi == 255, "Led.set_brightness/stores-only-0..255", (m, st), f"brightness is stored with value in {iv}; invariant is [0, 255]")
-                r.check(norm(st.value) in ("int(value)", "value"), "Led.set_brightness/stores-the-value", (m, st), f"brightness := `{norm(st.value)}`")
-            else:
-                r.check(norm(st.value) in ("self.brightness > 0", "self.brightness != 0", "bool(self.brightness)") and "B" in alt, "Led.set_brightness/state=brightness>0-after-store", (m, st), f"state := `{norm(st.value)}` (must be recomputed from the new brightness)")
-    for name, want in (("on", "255"), ("off", "0")):
-        f = m.func(f"Led.{name}")
-        cs = [c for c in calls_in(f) if norm(c.func) == "self.set_brightness"]
-        r.check(len(cs) == 1 and norm(cs[0].args[0]) == want, f"Led.{name}/set_brightness({want})", (m, f), f"Led.{name} must be set_brightness({want})")
-    tg = m.func("Led.toggle")
-    tr = CondTrace(lambda s: isinstance(s, ast.Expr) and isinstance(s.value, ast.Call) and norm(s.value.func) in ("self.on", "self.off"))
-    tr.run_function(tg, frozenset({frozenset()}))
-    for st, state in tr.hits:
-        for alt in state:
-            cs = conds(alt)
-            want_on = norm(st.value.func) == "self.on"
-            r.check((("self.state", not want_on) in cs) or (("not self.state", want_on) in cs), "Led.toggle/flips-state", (m, st), f"toggle calls {norm(st.value.func)} under {sorted(cs)}")
-    # RGBLed
-    m = mods["RGBLed"]
-    rc = m.cls("RGBLed")
-    vc = m.func("RGBLed._validate_component")
-    tr = CondTrace(lambda s: isinstance(s, ast.Return))
-    tr.run_function(vc, frozenset({frozenset()}))
-    for st, state in tr.hits:
-        for alt in state:
-            iv = env_from_path(alt, tr.tests, ["value"], m, rc)["value"]
-            r.check(iv.lo == 0 and iv.hi == 255, "RGBLed._validate_component/accepts-only-0..255", (m, st), f"a component in {iv} is accepted; invariant is [0, 255]")
-            cs = conds(alt)
-            r.check(("not isinstance(value, int)", False) in cs or ("isinstance(value, int)", True) in cs, "RGBLed._validate_component/int-only", (m, st), "non-integer components must be rejected")
-            r.check(norm(st.value) in ("int(value)", "value"), "RGBLed._validate_component/returns-the-value", (m, st), f"returns `{norm(st.value)}`")
-    sc = m.func("RGBLed.set_color")
-    sloc = Locals(sc)
-    stores = [st for a, st in self_stores(sc) if a == "_color"]
-    r.check(len(stores) == 1, "RGBLed.set_color/one-store", (m, sc), "set_color must store the colour exactly once")
-    for st in stores:
-        v = sloc.resolve(st.value)
-        okv = isinstance(v, ast.Tuple) and len(v.elts) == 3 and all(isinstance(e, ast.Call) and norm(e.func) == "self._validate_component" and e.args and norm(e.args[0]) == p for e, p in zip(v.elts, ("red", "green", "blue")))
-        r.check(okv, "RGBLed.set_color/stores-validated(red,green,blue)", (m, st), f"_color := `{norm(v)}`; expected the three validated components in red, green, blue order")
-        # validation completes before the store: the tuple is built before the assignment statement
-        r.check(isinstance(st.value, ast.Name), "RGBLed.set_color/validate-then-store", (m, st), "all three components must be validated before _color is assigned")
-    us = m.func("RGBLed._update_state")
-    ust = [st for a, st in self_stores(us) if a == "_state"]
-    r.check(len(ust) == 1 and norm(ust[0].value) in ("any((component > 0 for component in color))", "any((c > 0 for c in color))", "any(color)"), "RGBLed._update_state/any-channel>0", (m, us), f"_state := `{norm(ust[0].value) if ust else '?'}`")
-    ucalls = [c for c in calls_in(sc) if norm(c.func) == "self._update_state"]
-    r.check(len(ucalls) == 1 and norm(sloc.resolve(ucalls[0].args[0])) == norm(sloc.resolve(stores[0].value)) if stores else False, "RGBLed.set_color/state-from-stored-colour", (m, sc), "_update_state must be called with the colour just stored")
-    offc = [c for c in calls_in(m.func("RGBLed.off")) if norm(c.func) == "self.set_color"]
-    r.check(len(offc) == 1 and [norm(a) for a in offc[0].args] == ["0", "0", "0"], "RGBLed.off/set_color(0,0,0)", (m, m.func("RGBLed.off")), "off() must be set_color(0, 0, 0)")
-    onc = [c for c in calls_in(m.func("RGBLed.on")) if norm(c.func) == "self.set_color"]
-    r.check(len(onc) == 1 and [norm(a) for a in onc[0].args] == ["red", "green", "blue"], "RGBLed.on/set_color(red,green,blue)", (m, m.func("RGBLed.on")), "on() must forward its three components in order")
-    # Servo
-    m = mods["Servo"]
-    svc = m.cls("Servo")
-    for meth, par, lo, hi, own, other, conv in (("write", "angle", "self._min_angle", "self._max_angle", "_current_angle", "_current_pulse", "_angle_to_pulse"),
-                                                 ("write_us", "pulse", "self._min_pulse", "self._max_pulse", "_current_pulse", "_current_angle", "_pulse_to_angle")):
-        f = m.func(f"Servo.{meth}")
-        tr = CondTrace(lambda s: isinstance(s, ast.Assign) and norm(s.targets[0]) in (f"self.{own}", f"self.{other}"),
-                       marks=lambda s: {"OWN"} if isinstance(s, ast.Assign) and norm(s.targets[0]) == f"self.{own}" else set())
-        out = tr.run_function(f, frozenset({frozenset()}))
-        guard_txt = f"{lo} <= {par} <= {hi}"
-        seen_own = seen_other = False
-        for st, state in tr.hits:
-            for alt in state:
-                cs = conds(alt)
-                guarded = (guard_txt, True) in cs or (f"not {guard_txt}", False) in cs
-                r.check(guarded, f"Servo.{meth}/store-under-bounds-guard", (m, st), f"`{stmt_key(st)}` is reachable without the check {guard_txt}")
-                if norm(st.targets[0]) == f"self.{own}":
-                    seen_own = True
-                    r.check(norm(st.value) in (f"float({par})", par), f"Servo.{meth}/stores-the-argument", (m, st), f"{own} := `{norm(st.value)}`")
-                else:
-                    seen_other = True
-                    r.check(norm(st.value) == f"self.{conv}(self.{own})" and "OWN" in alt or norm(st.value) == f"self.{conv}({par})" or norm(st.value) == f"self.{conv}(float({par}))", f"Servo.{meth}/other-field-through-map", (m, st), f"{other} := `{norm(st.value)}`; expected {conv} of the stored value")
-        r.check(seen_own and seen_other, f"Servo.{meth}/updates-both-fields", (m, f), f"{meth} must update both the angle and the pulse")
-        # every normal exit has stored the argument (round-trip write/read)
-        exits = [s for _n, s in out.ret] + ([out.fall] if out.fall is not None else [])
-        for s in exits:
-            for alt in s:
-                r.check("OWN" in alt, f"Servo.{meth}/every-normal-exit-stores", (m, f), f"a path returns from {meth}() without storing the commanded {par}: read() would not return what was written")
-    servo_maps(r, m)
-    init = m.func("Servo.__init__")
-    gtxt = [norm(n.test) for n in walk_local(init) if isinstance(n, ast.If) and any(isinstance(x, ast.Raise) for x in n.body)]
-    r.check("min_angle >= max_angle" in gtxt and "min_pulse_us >= max_pulse_us" in gtxt, "Servo.__init__/rejects-empty-spans", (m, init), f"constructor guards: {gtxt}")
-    # DCMotor
-    m = mods["DCMotor"]
-    dc = m.cls("DCMotor")
-    cl = m.func("DCMotor._clamp_speed")
-    for v, want in ((-2.0, -1.0), (-1.0, -1.0), (-0.25, -0.25), (0.0, 0.0), (0.5, 0.5), (1.0, 1.0), (1.5, 1.0), (3, 1.0), (True, 1.0), ("x", "TypeError"), (None, "TypeError")):
-        try:
-            out = dl.Interp(m).call(cl, [v])
-        except dl.Unsupported as e:
-            raise AnalysisError(f"DCMotor._clamp_speed left the decision-list subset: {e}")
-        ok = (out.kind == "raise" and out.value == want) if isinstance(want, str) else (out.kind == "return" and out.value == want and isinstance(out.value, float))
-        r.check(ok, f"DCMotor._clamp_speed/region[{'>1' if isinstance(v, (int, float)) and not isinstance(v, bool) and v > 1 else '<-1' if isinstance(v, (int, float)) and v < -1 else 'in-range' if isinstance(v, (int, float)) else 'non-number'}]", (m, cl), f"_clamp_speed({v!r}) -> {out!r}, expected {want!r}")
-    ap = m.func("DCMotor._apply_speed")
-    aloc = Locals(ap)
-    eff = aloc.defs.get("effective", [])
-    r.check(len(eff) == 1 and norm(eff[0]) in ("-speed if self._inverted else speed", "speed if not self._inverted else -speed"), "DCMotor._apply_speed/effective=±speed", (m, ap), f"effective := `{norm(eff[0]) if eff else '?'}`")
-    tr = CondTrace(lambda s: isinstance(s, ast.Assign) and norm(s.targets[0]) in ("self._mode", "self._applied_speed"))
-    tr.run_function(ap, frozenset({frozenset()}))
-    for st, state in tr.hits:
-        for alt in state:
-            cs = conds(alt)
-            if norm(st.targets[0]) == "self._mode":
-                zero = ("effective == 0.0", True) in cs or ("effective == 0", True) in cs or ("effective != 0.0", False) in cs
-                nonzero = ("effective == 0.0", False) in cs or ("effective == 0", False) in cs or ("effective != 0.0", True) in cs
-                val = try_const(st.value)
-                r.check((val == "coast" and zero) or (val == "drive" and nonzero), "DCMotor._apply_speed/mode=drive-iff-nonzero", (m, st), f"_mode := {val!r} under {sorted(cs)}")
-            else:
-                r.check(norm(st.value) == "effective", "DCMotor._apply_speed/applied=effective", (m, st), f"_applied_speed := `{norm(st.value)}`")
-    # every normal exit of _apply_speed has (re)computed both the mode and the applied speed: no early return that keeps the
-    # mode an earlier stop()/run_for() left (brake) when the same speed is applied again
-    from ..flow import MustFacts
-
-    class Stored(MustFacts):
-        def gen(self, stmt):
-            return {"stored:" + norm(t) for t in (stmt.targets if isinstance(stmt, ast.Assign) else []) if norm(t) in ("self._mode", "self._applied_speed")}
-
-    so = Stored().run_function(ap, frozenset())
-    exits = [st_ for _n, st_ in so.ret] + ([so.fall] if so.fall is not None else [])
-    r.check(bool(exits) and all({"stored:self._mode", "stored:self._applied_speed"} <= set(e) for e in exits), "DCMotor._apply_speed/every-exit-stores-mode-and-applied-speed", (m, ap), "a path returns from _apply_speed without recomputing _mode/_applied_speed: after stop() (brake) a set_speed(0) would leave the bridge braked while the command means coast")
-    ss = m.func("DCMotor.set_speed")
-    sl_ = Locals(ss)
-    st_sp = [st for a, st in self_stores(ss) if a == "_speed"]
-    okss = len(st_sp) == 1 and norm(sl_.resolve(st_sp[0].value)) == "self._clamp_speed(value)"
-    r.check(okss, "DCMotor.set_speed/stores-clamped", (m, ss), "_speed must be _clamp_speed(value)")
-    apc = [c for c in calls_in(ss) if norm(c.func) == "self._apply_speed"]
-    r.check(len(apc) == 1 and norm(sl_.resolve(apc[0].args[0])) == "self._clamp_speed(value)", "DCMotor.set_speed/applies-clamped", (m, ss), "_apply_speed must receive the clamped speed")
-    for meth, mode in (("stop", "brake"), ("coast", "coast")):
-        f = m.func(f"DCMotor.{meth}")
-        vals = {a: try_const(st.value) for a, st in self_stores(f)}
-        r.check(vals == {"_speed": 0.0, "_applied_speed": 0.0, "_mode": mode}, f"DCMotor.{meth}/zero-and-{mode}", (m, f), f"{meth}() stores {vals}")
-    iv_ = m.func("DCMotor.invert")
-    ist = [st for a, st in self_stores(iv_) if a == "_inverted"]
-    r.check(len(ist) == 1 and norm(ist[0].value) == "not self._inverted", "DCMotor.invert/toggles", (m, iv_), "invert() must negate _inverted")
-    ic = [c for c in calls_in(iv_) if norm(c.func) == "self._apply_speed"]
-    r.check(len(ic) == 1 and norm(ic[0].args[0]) == "self._speed" and ist and ic[0].lineno > ist[0].lineno, "DCMotor.invert/re-applies-speed", (m, iv_), "invert() must re-apply the stored speed after toggling")
-    bw = m.func("DCMotor.backward")
-    bc = [c for c in calls_in(bw) if norm(c.func) == "self.set_speed"]
-    bl = Locals(bw)
-    okb = len(bc) == 1 and isinstance(bc[0].args[0], ast.UnaryOp) and norm(bl.resolve(bc[0].args[0].operand)) == "abs(self._clamp_speed(speed))"
-    r.check(okb, "DCMotor.backward/negative-magnitude", (m, bw), "backward(speed) must command -abs(clamped speed)")
+    meths_by = {cname: methods_of(m.cls(cname)) for cname, m in mods.items()}
+    # (single-writer and range rules on the spelling of the writer bodies were replaced by the LAWS rules below: the
+    # invariants are decided on the objects' observable state over state x command grids)
 
     # ---- C19-ATOMIC --------------------------------------------------------------------------
     r = cx.rule("C19-ATOMIC", "in every public method no explicit argument check raises after the first state mutation, and every call that can raise on a bad argument after the first mutation has that argument proven in range (intervals from dominating guards/clamps)", floor=25)
@@ -437,55 +304,12 @@ def run(cx):
                             r.check(iv.within(lo, hi), f"{cname}.{name}/{fn_txt}({norm(a)})-in-range-after-mutation", (m, call), f"`{key_txt}` runs after the object was modified; its argument has range {iv} but {fn_txt} raises outside [{lo}, {hi}]: the failing call would leave the object half-updated", sample=f"{cname}.{name}: {key_txt} in {iv}")
 
     # ---- C19-SLEEPS --------------------------------------------------------------------------
-    r = cx.rule("C19-SLEEPS", "blink sleeps exactly twice per repetition with the given delay, run_for sleeps exactly once and ends with stop(), fade/ramp delay per step is duration/steps with at most one sleep per step, interpolation formulas end exactly on the target", floor=15)
-    is_sleep = lambda c: isinstance(c, ast.Call) and norm(c.func) == "_sleep"
-
-    def per_iteration(m, f, loop, arg_txt, n_expected):
-        cc = CallCount(is_sleep)
-        o = cc.block(loop.body, (0, 0))
-        ends = [x for x in (o.fall, o.cont) if x is not None]
-        r.check(bool(ends) and all(e == (n_expected, n_expected) for e in ends), f"{m.rel.split('/')[-1][:-3]}.{f.name}/sleeps-per-iteration={n_expected}", (m, loop), f"sleeps per loop iteration: {ends}, expected exactly {n_expected}")
-        for c_ in [c_ for c_ in calls_in(loop) if is_sleep(c_)]:
-            r.check(len(c_.args) == 1 and norm(c_.args[0]) == arg_txt, f"{m.rel.split('/')[-1][:-3]}.{f.name}/sleep-argument", (m, c_), f"_sleep({norm(c_.args[0]) if c_.args else ''}), expected _sleep({arg_txt})")
-        outside = [c_ for c_ in calls_in(f) if is_sleep(c_) and not any(a is loop for a in m.ancestors(c_))]
-        r.check(not outside, f"{m.rel.split('/')[-1][:-3]}.{f.name}/no-sleep-outside-loop", (m, f), "extra sleep outside the repetition loop")
-
-    for cname, meth, arg_txt, rng in (("Led", "blink", "duration_ms", "range(times)"), ("RGBLed", "blink", "delay_ms", "range(times)")):
-        m = mods[cname]
-        f = m.func(f"{cname}.{meth}")
-        loops = [n for n in walk_local(f) if isinstance(n, ast.For)]
-        r.check(len(loops) == 1 and norm(loops[0].iter) == rng, f"{cname}.{meth}/loop=range(times)", (m, f), f"blink must repeat exactly `times` times, loop is over {norm(loops[0].iter) if loops else '?'}")
-        if loops:
-            per_iteration(m, f, loops[0], arg_txt, 2)
+    r = cx.rule("C19-SLEEPS", "blink sleeps exactly twice per repetition with the given delay, run_for sleeps exactly once and ends with stop(), fade/ramp delay per step is duration/steps with at most one sleep per step, interpolation formulas end exactly on the target", floor=1)
+    # (how often and how long blink/fade/ramp/run_for wait, that blink restores the colour it started from and that fades end
+    # on the target is decided on recorded waits and states by the LAWS rules; here: the interpolation kernel on a dense grid)
     m = mods["RGBLed"]
-    bl = m.func("RGBLed.blink")
-    bloc = Locals(bl)
-    last = [s for s in bl.body if not isinstance(s, ast.Pass)][-1]
-    okl = isinstance(last, ast.Expr) and norm(last.value) == "self.set_color(*original)" and norm(bloc.resolve(ast.Name(id="original", ctx=ast.Load()))) == "self._color"
-    r.check(okl, "RGBLed.blink/restores-original-colour-last", (m, last), "blink must end by restoring the colour read before the first change")
-    orig_def = [n for n in walk_local(bl) if isinstance(n, ast.Assign) and norm(n.targets[0]) == "original"]
-    loops = [n for n in walk_local(bl) if isinstance(n, ast.For)]
-    r.check(bool(orig_def) and bool(loops) and orig_def[0].lineno < loops[0].lineno, "RGBLed.blink/original-read-before-loop", (m, bl), "the original colour must be captured before blinking starts")
-    # RGBLed.fade
     fd = m.func("RGBLed.fade")
-    floc = Locals(fd)
-    loops = [n for n in walk_local(fd) if isinstance(n, ast.For) and "steps" in norm(n.iter)]
-    r.check(len(loops) == 1 and norm(loops[0].iter) in ("range(1, steps + 1)",), "RGBLed.fade/steps-iterations", (m, fd), f"fade must take exactly `steps` steps ending at index == steps; loop is {norm(loops[0].iter) if loops else '?'}")
-    if loops:
-        lp = loops[0]
-        cc = CallCount(is_sleep)
-        o = cc.block(lp.body, (0, 0))
-        ends = [x for x in (o.fall, o.cont) if x is not None]
-        r.check(bool(ends) and all(e[1] <= 1 for e in ends), "RGBLed.fade/at-most-one-sleep-per-step", (m, lp), f"sleeps per step: {ends}")
-        subst = {k: v[0] for k, v in floc.defs.items() if len(v) == 1 and isinstance(v[0], ast.expr)}
-        for c_ in [c_ for c_ in calls_in(fd) if is_sleep(c_)]:
-            try:
-                okd = rat_equal(c_.args[0], ast.parse("duration_ms / steps", mode="eval").body, subst, {})
-            except ValueError:
-                okd = False
-            r.check(okd, "RGBLed.fade/step-delay=duration/steps", (m, c_), f"per-step delay `{norm(floc.resolve(c_.args[0]))}` is not duration_ms/steps: the fade could take longer than requested")
-            under = any(isinstance(a, ast.If) and norm(a.test) in ("index != steps", "index < steps") for a in m.ancestors(c_))
-            r.check(under, "RGBLed.fade/no-sleep-after-last-step", (m, c_), "the last step must not be followed by a sleep")
+    if True:
         from fractions import Fraction
         hv, _it = host_fade_kernel(m)
         bad = None
@@ -500,46 +324,9 @@ def run(cx):
                     if not good and bad is None:
                         bad = f"fade {a_}->{b_} over {s_} steps: step {i_} gives {v_!r} (exact {float(exact):.3f})"
         r.check(bad is None, "RGBLed.fade/interpolation-ends-on-target", (m, fd), f"every step must be a nearest integer of current + (goal-current)*index/steps, monotone, exactly the target at index == steps; {bad}")
-    # DCMotor
-    m = mods["DCMotor"]
-    dc = m.cls("DCMotor")
-    r.check(try_const(ast.Attribute(value=ast.Name(id="self", ctx=ast.Load()), attr="_RAMP_STEPS", ctx=ast.Load()), m, dc) == 20, "DCMotor._RAMP_STEPS=20", (m, dc), "ramp must take 20 steps")
-    rp = m.func("DCMotor.ramp")
-    rloc = Locals(rp)
-    loops = [n for n in walk_local(rp) if isinstance(n, ast.For)]
-    r.check(len(loops) == 1 and norm(loops[0].iter) == "range(1, self._RAMP_STEPS + 1)", "DCMotor.ramp/steps-iterations", (m, rp), f"ramp loop is {norm(loops[0].iter) if loops else '?'}")
-    if loops:
-        lp = loops[0]
-        o = CallCount(is_sleep).block(lp.body, (0, 0))
-        ends = [x for x in (o.fall, o.cont) if x is not None]
-        r.check(bool(ends) and all(e[1] <= 1 for e in ends), "DCMotor.ramp/at-most-one-sleep-per-step", (m, lp), f"sleeps per step: {ends}")
-        subst = {k: v[0] for k, v in rloc.defs.items() if len(v) == 1 and isinstance(v[0], ast.expr)}
-        for c_ in [c_ for c_ in calls_in(rp) if is_sleep(c_)]:
-            d = rloc.resolve(c_.args[0])
-            core_ = d.body if isinstance(d, ast.IfExp) else d
-            try:
-                okd = rat_equal(core_, ast.parse("duration_ms / self._RAMP_STEPS", mode="eval").body, subst, {})
-            except ValueError:
-                okd = False
-            r.check(okd, "DCMotor.ramp/step-delay=duration/steps", (m, c_), f"per-step delay `{norm(d)}` is not duration_ms/_RAMP_STEPS")
-        sc_ = [c_ for c_ in calls_in(lp) if norm(c_.func) == "self.set_speed"]
-        try:
-            oks = len(sc_) == 1 and rat_equal(sc_[0].args[0], ast.parse("start + (target - start) * step / self._RAMP_STEPS", mode="eval").body, subst, subst)
-        except ValueError:
-            oks = False
-        r.check(oks, "DCMotor.ramp/linear-to-target", (m, lp), "ramp value must be start + (target-start)*step/_RAMP_STEPS (the clamped target at the last step)")
-        r.check(norm(rloc.resolve(ast.Name(id="target", ctx=ast.Load()))) == "self._clamp_speed(target_speed)" and norm(rloc.resolve(ast.Name(id="start", ctx=ast.Load()))) == "self._speed", "DCMotor.ramp/start=current,target=clamped", (m, rp), "ramp must start at the current speed and aim at the clamped target")
-    rf = m.func("DCMotor.run_for")
-    cc = CallCount(is_sleep).run_function(rf, (0, 0))
-    ex = [s for _n, s in cc.ret] + ([cc.fall] if cc.fall is not None else [])
-    r.check(bool(ex) and all(e == (1, 1) for e in ex), "DCMotor.run_for/sleeps-exactly-once", (m, rf), f"sleeps per path: {ex}")
-    for c_ in [c_ for c_ in calls_in(rf) if is_sleep(c_)]:
-        r.check(len(c_.args) == 1 and norm(c_.args[0]) == "duration_ms", "DCMotor.run_for/sleep(duration_ms)", (m, c_), f"_sleep({norm(c_.args[0]) if c_.args else ''})")
-    last = rf.body[-1]
-    r.check(isinstance(last, ast.Expr) and norm(last.value) == "self.stop()", "DCMotor.run_for/ends-braked", (m, last), "run_for must end with stop()")
-
-    # ---- C19-MOTOR-LAW -----------------------------------------------------------------------
+    # ---- C19-MOTOR-LAW / C19-LAWS ------------------------------------------------------------
     rule_motor_law(cx)
+    rule_host_laws(cx, mods)
 
 
 def rule_motor_law(cx, rid="C19-MOTOR-LAW"):
@@ -628,4 +415,197 @@ def rule_motor_law(cx, rid="C19-MOTOR-LAW"):
                         report(meth, args, st, why)
                     else:
                         r.ok(None)
+    return r
+
+
+def rule_host_laws(cx, mods, rid="C19-LAWS"):
+    """the Led / RGBLed / Servo clauses of the property evaluated on the host classes themselves (checker's interpreter; sleeps
+    and every intermediate state recorded) from every state of a grid and for every command with in-range, boundary and
+    out-of-range arguments.  Observation goes through the public getters and the documented attributes only."""
+    import itertools
+    from fractions import Fraction
+    from . import c04
+    r = cx.rule(rid, "Led: 0<=brightness<=255 and on iff brightness>0 after every command, blink sleeps exactly 2*times*duration and restores nothing it should not, fades stay in range and end on 255/0; RGBLed: channels 0..255, on iff some channel non-zero, fade ends exactly on the target after `steps` monotone steps with steps-1 waits of duration/steps, blink ends on the colour it started from after 2*times waits; Servo: angle and pulse within the configured bounds and on the configured line, write/read and write_us/read_us round-trip; a call that raises leaves the object exactly as it was", floor=400, exhaustive=True)
+    bad = {}
+
+    def report(cls_, meth, args, st, why, fn_):
+        k_ = (cls_, meth)
+        bad[k_] = bad.get(k_, 0) + 1
+        if bad[k_] <= 2:
+            r.fail(f"{cls_}.{meth}/law", (mods[cls_], fn_), f"{cls_} in state {st}: {meth}({', '.join(map(repr, args))}) {why}", detail={"class": cls_, "method": meth, "args": [repr(a) for a in args], "state": repr(st)})
+        else:
+            r.stat.obligations += 1
+            r.stat.failed += 1
+
+    def call(m, q, obj, args, kw=None, sleeps=None, probe=None):
+        try:
+            return dl.Interp(m, opaque={"_sleep": (lambda ms, _s=sleeps, _p=probe: _s.append((ms, _p() if _p else None))) if sleeps is not None else (lambda ms: None)}).call(m.func(q), [obj] + list(args), dict(kw or {}))
+        except dl.Unsupported as e:
+            raise AnalysisError(f"host {q} left the evaluable subset: {e}")
+
+    # ---- Led ------------------------------------------------------------------------------------
+    m = mods["Led"]
+    led_state = lambda o: (o.brightness, o.state)
+    led_cmds = [("on", []), ("off", []), ("toggle", [])] + [("set_brightness", [v]) for v in (0, 1, 127, 255, 256, -1, 300, 12.7, True, 0.5, 0.9, 254.5, 255.0)] + \
+               [("blink", [d, t]) for d, t in ((10, 1), (0, 3), (25, 2), (-1, 1), (10, 0), (10, -2))] + [("blink", [40])] + \
+               [("fade_in", [s_, d]) for s_, d in ((5, 10), (100, 0), (256, 1), (0, 5), (-3, 5), (5, -1))] + [("fade_out", [s_, d]) for s_, d in ((5, 10), (100, 0), (300, 1), (0, 5), (5, -1))] + \
+               [("flash_pattern", [p_, d]) for p_, d in (([1, 0, 1], 10), ([], 5), ([0, 255, 128, 1], 0), ([1, 256], 5), ([1, -1], 5), ([1, 0], -1))]
+    for b0 in (0, 1, 100, 255):
+        for meth, args in led_cmds:
+            o = c04.host_object(m, "Led", 13)
+            o.brightness, o.state = b0, b0 > 0
+            before = led_state(o)
+            sleeps = []
+            out = call(m, f"Led.{meth}", o, args, sleeps=sleeps, probe=lambda _o=o: led_state(_o))
+            fn_ = m.func(f"Led.{meth}")
+            if out.kind == "raise":
+                # flash_pattern validates entry by entry (documented): earlier entries have been applied
+                if led_state(o) != before and meth != "flash_pattern":
+                    report("Led", meth, args, before, f"raises {out.value} and leaves {led_state(o)}", fn_)
+                elif sleeps and meth != "flash_pattern":
+                    report("Led", meth, args, before, f"raises {out.value} after sleeping {len(sleeps)} time(s)", fn_)
+                else:
+                    r.ok(None)
+                continue
+            why = None
+            for (ms, st_) in sleeps + [(None, led_state(o))]:
+                b_, s_ = st_
+                if not (isinstance(b_, int) and 0 <= b_ <= 255) or bool(s_) != (b_ > 0):
+                    why = f"passes through brightness {b_!r}, state {s_!r}"
+                    break
+            if why is None and meth == "blink":
+                d_, t_ = (args + [1])[:2]
+                if [x[0] for x in sleeps] != [d_] * (2 * t_):
+                    why = f"sleeps {[x[0] for x in sleeps]}; the law is exactly {2 * t_} waits of {d_}"
+                elif led_state(o)[0] != 0:
+                    why = f"ends with brightness {led_state(o)[0]} (a blink ends dark)"
+            if why is None and meth in ("fade_in", "fade_out") and led_state(o)[0] != (255 if meth == "fade_in" else 0):
+                why = f"ends at brightness {led_state(o)[0]}"
+            if why is None and meth in ("fade_in", "fade_out"):
+                seq = [before[0]] + [x[1][0] for x in sleeps] + [led_state(o)[0]]
+                if any((b_ < a_) if meth == "fade_in" else (b_ > a_) for a_, b_ in zip(seq, seq[1:])):
+                    why = f"is not monotone: {seq[:8]}..."
+            if why is None and meth == "on" and led_state(o) != (255, True):
+                why = f"leaves {led_state(o)}"
+            if why is None and meth == "off" and led_state(o) != (0, False):
+                why = f"leaves {led_state(o)}"
+            if why is None and meth == "toggle" and bool(led_state(o)[1]) == bool(before[1]):
+                why = f"does not flip the state ({before} -> {led_state(o)})"
+            if why is None and meth == "set_brightness" and led_state(o)[0] != int(args[0]):
+                why = f"stores {led_state(o)[0]}"
+            if why:
+                report("Led", meth, args, before, why, fn_)
+            else:
+                r.ok(None)
+
+    # ---- RGBLed ---------------------------------------------------------------------------------
+    m = mods["RGBLed"]
+    rgb_get = lambda o: (tuple(dl.Interp(m).call(m.func("RGBLed.get_color"), [o]).value), bool(dl.Interp(m).call(m.func("RGBLed.get_state"), [o]).value))
+    colours = [(0, 0, 0), (255, 255, 255), (10, 0, 0), (0, 0, 1), (200, 100, 50)]
+    rgb_cmds = [("set_color", list(c_)) for c_ in ((0, 0, 0), (1, 2, 3), (255, 0, 255), (256, 0, 0), (0, -1, 0), (1, 2, 3.5), (0, 0, True))] + [("on", []), ("on", [5]), ("on", [0, 0, 0]), ("off", [])] + \
+               [("fade", list(c_) + [d, s_]) for c_ in ((0, 0, 0), (255, 10, 128), (200, 100, 50)) for d, s_ in ((100, 5), (0, 5), (30, 1), (7, 3), (100, 16), (20, 50), (3, 8), (0.5, 4))] + [("fade", [1, 2, 3, -1, 5]), ("fade", [1, 2, 3, 10, 0]), ("fade", [256, 2, 3, 10, 5])] + \
+               [("blink", list(c_) + [t_, d]) for c_ in ((255, 0, 0), (0, 0, 0), (200, 100, 50), (255, 255, 255), (10, 0, 0)) for t_, d in ((1, 10), (3, 0), (2, 25))] + [("blink", [1, 2, 3, 0, 10]), ("blink", [1, 2, 3, 2, -1]), ("blink", [300, 2, 3, 1, 1])]
+    for c0 in colours:
+        for meth, args in rgb_cmds:
+            o = c04.host_object(m, "RGBLed", 9, 10, 11)
+            ini = call(m, "RGBLed.set_color", o, list(c0))
+            if ini.kind != "return":
+                raise AnalysisError(f"host RGBLed.set_color{c0} raises {ini.value}")
+            before = rgb_get(o)
+            sleeps = []
+            out = call(m, f"RGBLed.{meth}", o, args, sleeps=sleeps, probe=lambda _o=o: rgb_get(_o))
+            fn_ = m.func(f"RGBLed.{meth}")
+            after = rgb_get(o)
+            if out.kind == "raise":
+                if after != before or sleeps:
+                    report("RGBLed", meth, args, before, f"raises {out.value} and leaves {after} after {len(sleeps)} wait(s)", fn_)
+                else:
+                    r.ok(None)
+                continue
+            why = None
+            for (_ms, st_) in sleeps + [(None, after)]:
+                col_, on_ = st_
+                if len(col_) != 3 or not all(isinstance(x, int) and not isinstance(x, bool) and 0 <= x <= 255 for x in col_) or on_ != any(x > 0 for x in col_):
+                    why = f"passes through colour {col_!r}, state {on_!r}"
+                    break
+            if why is None and meth in ("set_color",) and after[0] != tuple(args):
+                why = f"stores {after[0]}"
+            if why is None and meth == "on" and after[0] != tuple((args + [255, 255, 255])[:3] if len(args) < 3 else args):
+                want_ = tuple(list(args) + [255] * (3 - len(args)))
+                if after[0] != want_:
+                    why = f"leaves {after[0]}, expected {want_}"
+            if why is None and meth == "off" and after != ((0, 0, 0), False):
+                why = f"leaves {after}"
+            if why is None and meth == "fade":
+                tgt, d_, s_ = tuple(args[:3]), args[3], args[4]
+                if after[0] != tgt:
+                    why = f"ends on {after[0]}, not on the target {tgt}"
+                elif d_ > 0 and before[0] != tgt:
+                    seq = [before[0]] + [x[1][0] for x in sleeps] + [after[0]]
+                    if len(sleeps) != s_ - 1 or any(abs(x[0] - d_ / s_) > 1e-9 for x in sleeps) or sum(x[0] for x in sleeps) > d_ + 1e-9:
+                        why = f"waits {len(sleeps)} time(s) ({sorted(set(x[0] for x in sleeps))[:3]}); the law is {s_ - 1} waits of {d_ / s_}"
+                    else:
+                        for ch in range(3):
+                            col = [c_[ch] for c_ in seq]
+                            up = tgt[ch] >= before[0][ch]
+                            if any((b_ < a_) if up else (b_ > a_) for a_, b_ in zip(col, col[1:])):
+                                why = f"channel {ch} is not monotone: {col}"
+                            for i_, v_ in enumerate(col[1:], 1):
+                                exact = before[0][ch] + Fraction((tgt[ch] - before[0][ch]) * i_, s_)
+                                if abs(v_ - exact) > Fraction(1, 2):
+                                    why = f"channel {ch} step {i_} is {v_}, more than half a count from {float(exact):.2f}"
+                elif sleeps:
+                    why = f"waits although duration is 0 or the colour is already the target"
+            if why is None and meth == "blink":
+                t_, d_ = args[3], args[4]
+                if after != before:
+                    why = f"ends on {after}, it started from {before}"
+                elif [x[0] for x in sleeps] != [d_] * (2 * t_):
+                    why = f"waits {[x[0] for x in sleeps]}; the law is exactly {2 * t_} waits of {d_}"
+            if why:
+                report("RGBLed", meth, args, before, why, fn_)
+            else:
+                r.ok(None)
+
+    # ---- Servo ----------------------------------------------------------------------------------
+    m = mods["Servo"]
+    # (the last two calibrations make the angle range overlap the pulse range: a winch servo, pulses given in milliseconds)
+    for cal in ({}, {"min_angle": 10, "max_angle": 170, "min_pulse_us": 500, "max_pulse_us": 2500}, {"min_angle": -90, "max_angle": 90, "min_pulse_us": 1000.5, "max_pulse_us": 2000},
+                {"min_angle": 0, "max_angle": 1260, "min_pulse_us": 544, "max_pulse_us": 2400}, {"min_angle": 0, "max_angle": 180, "min_pulse_us": 1, "max_pulse_us": 2}):
+        probe_o = c04.host_object(m, "Servo", 9, **cal)
+        la, ha, lp, hp = probe_o._min_angle, probe_o._max_angle, probe_o._min_pulse, probe_o._max_pulse
+        read = lambda o: (dl.Interp(m).call(m.func("Servo.read"), [o]).value, dl.Interp(m).call(m.func("Servo.read_us"), [o]).value)
+        line_ok = lambda a_, p_: abs((Fraction(p_) - Fraction(lp)) * (Fraction(ha) - Fraction(la)) - (Fraction(a_) - Fraction(la)) * (Fraction(hp) - Fraction(lp))) <= Fraction(1, 10 ** 6) * (Fraction(ha) - Fraction(la)) * (Fraction(hp) - Fraction(lp))
+        cmds = [("write", [v]) for v in (la, ha, (la + ha) / 2, la + 0.25, ha - 1e-9, la - 0.001, ha + 1, la - 100)] + [("write_us", [v]) for v in (lp, hp, (lp + hp) / 2, lp + 0.25, hp - 0.5, lp - 0.5, hp + 1, 0)]
+        for first in (("write", [la]), ("write", [(la + ha) / 2]), ("write_us", [hp])):
+            for meth, args in cmds:
+                o = c04.host_object(m, "Servo", 9, **cal)
+                call(m, f"Servo.{first[0]}", o, first[1])
+                before = read(o)
+                out = call(m, f"Servo.{meth}", o, args)
+                after = read(o)
+                fn_ = m.func(f"Servo.{meth}")
+                inside = (la <= args[0] <= ha) if meth == "write" else (lp <= args[0] <= hp)
+                if out.kind == "raise":
+                    if inside:
+                        report("Servo", meth, args, before, f"raises {out.value} for a value inside the configured bounds {('angle', la, ha) if meth == 'write' else ('pulse', lp, hp)}", fn_)
+                    elif after != before:
+                        report("Servo", meth, args, before, f"raises {out.value} and leaves {after}", fn_)
+                    else:
+                        r.ok(None)
+                    continue
+                why = None
+                a_, p_ = after
+                if not inside:
+                    why = f"accepts a value outside the configured bounds and leaves {after}"
+                elif not (la <= a_ <= ha and lp <= p_ <= hp):
+                    why = f"leaves angle {a_}, pulse {p_} outside the bounds [{la}, {ha}] / [{lp}, {hp}]"
+                elif not line_ok(a_, p_):
+                    why = f"leaves angle {a_} and pulse {p_}, which are not on the configured line"
+                elif (meth == "write" and a_ != float(args[0])) or (meth == "write_us" and p_ != float(args[0])):
+                    why = f"reads back {after}: the written value does not round-trip"
+                if why:
+                    report("Servo", meth, args, before, why, fn_)
+                else:
+                    r.ok(None)
     return r
